@@ -58,6 +58,8 @@ ft = ['| property | commit | what failed |', '|---|---|---|'] + [f"| {p_} | {h_}
 kl = [f"* **{p_}** (`key={k_}`): {_cell(t_, 700)}" for p_, k_, t_ in known]
 rest = rest.replace('FIXED_TABLE', f"{len(fixed)} repairs (oldest first):\n\n" + '\n'.join(ft)).replace('KNOWN_LIST', '\n'.join(kl))
 n_tot = len(rows); n_first = sum(1 for r in rows if r.endswith('| caught |')); n_now = sum(1 for r in rows if '**missed**' not in r)
+n_fix = sum(1 for l in subprocess.run(['git', '-C', '/repo', 'log', '--format=%s'], capture_output=True, text=True).stdout.splitlines() if l.startswith('fix:'))
+rest = rest.replace('FIXCOUNT', str(n_fix))
 rest = rest.replace('SEED_TOTAL', str(n_tot)).replace('SEED_FIRST', str(n_first))
 rest = rest.replace('SEEDED_TABLE_ROWS', '\n'.join(rows)).replace('SEEDED_MISSED', ('\n'.join(missed) if missed else 'At the time of writing every kept change is caught.') +
         f"\n\nTotals: {n_tot} kept changes; {n_first} caught by the checks as first built, {n_now} caught now.")
